@@ -30,6 +30,7 @@ RULE = (
 )
 ASSUMPTIONS = ["allele frequencies strictly positive", "lambda > 0 only on diploid gametes (the kernels raise otherwise)"]
 TOL = 1e-9
+STATS = {"dirty_scratch_calls": 0, "extra_padding_calls": 0}
 
 SHAPES = [
     # (ploidy_p, ploidy_q, tau_p, tau_q)
@@ -48,7 +49,8 @@ def plan(tier, seed):
 def required(tier):
     return {"trio_configs": 3000, "progeny_evaluated": 30000, "sum_to_one_checked": 3000, "validity_checked": 5000,
             "gamete_sums": 1000, "configs_unbalanced": 300, "configs_lambda": 300, "configs_clonal": 100,
-            "configs_unknown_parent": 300, "configs_zero_error": 300, "invalid_trios_seen": 300}
+            "configs_unknown_parent": 300, "configs_zero_error": 300, "invalid_trios_seen": 300,
+            "dirty_scratch_calls": 5000, "extra_padding_calls": 5000}
 
 
 def make_case(rng):
@@ -83,16 +85,30 @@ def make_case(rng):
 
 
 def kernel_trio(K, c, progeny):
+    """One call of the compiled trio pmf.  The sampler hands the kernel scratch arrays it has used before (never zeroed
+    between calls) and genotype arrays padded to the widest ploidy of the pedigree, so half of the calls here get scratch
+    arrays holding garbage and up to three extra padding slots; the choice is a function of the case, hence reproducible."""
+    import zlib
+
     ploidy = c["tau_p"] + c["tau_q"]
-    mp = max(ploidy, len(c["par_p"]), len(c["par_q"]))
+    h = zlib.crc32(repr((c["par_p"], c["par_q"], c["tau_p"], c["tau_q"], c["err_p"], tuple(progeny))).encode())
+    mp = max(ploidy, len(c["par_p"]), len(c["par_q"])) + (h % 4 if (h >> 3) & 1 else 0)
 
     def pad(g):
         a = np.full(mp, -1, dtype=np.int16)
         a[: len(g)] = g
         return a
 
-    sc = [np.zeros(mp, dtype=np.int64) for _ in range(7)]
-    dlf = np.zeros(mp, dtype=np.float64)
+    if (h >> 4) & 1:
+        r = np.random.default_rng(h)
+        sc = [r.integers(-3, 9, size=mp).astype(np.int64) for _ in range(7)]
+        dlf = r.normal(size=mp) * 5
+        STATS["dirty_scratch_calls"] += 1
+    else:
+        sc = [np.zeros(mp, dtype=np.int64) for _ in range(7)]
+        dlf = np.zeros(mp, dtype=np.float64)
+    if mp > max(ploidy, len(c["par_p"]), len(c["par_q"])):
+        STATS["extra_padding_calls"] += 1
     return float(K["trio_log_pmf"](
         pad(progeny), pad(c["par_p"]), pad(c["par_q"]),
         len(c["par_p"]) if c["known_p"] else 0, len(c["par_q"]) if c["known_q"] else 0,
@@ -226,6 +242,8 @@ def run_shard(tier, seed, spec, col):
         if i % 3 == 0:
             check_gametes(c, col, K)
     exhaustive_small(col, K, spec["shard"])
+    for k, v in STATS.items():
+        col.count(k, v)
 
 
 def replay(obj, col):
